@@ -30,6 +30,13 @@ CHECKS = {
         note=TRUST + "; 'identical overlap matrix' follows from equality of the basis functions in order + determinism, the integral code itself is C06; flattening lemma stated, not mechanised",
         technique="contract-based deductive verification (AST symbolic execution -> z3 VCs, generic-iteration loop rule, induction lemmas) + bounded random bases/orbitals on the real functions",
     ),
+    "C08": dict(
+        category="proof",
+        text="The real bodies of dump_one, dump_many (incl. the nested checking_iterator), write_input, _check_required and the warning re-issuer are executed symbolically with all format-level callees havoc'ed (they may raise any subclass of Exception at any call, every write may fail), for each of the 13 dump_one and 4 dump_many modules with their real `required` lists: escaping exception classes, PrepareDumpError/FileFormatError before any open event, DumpError/WriteInputError after it, close on every path, first-frame pre-flight and lazy one-pull-per-frame order of dump_many are proved for all inputs and all fault positions.",
+        design_ref="DESIGN.md 6/C08",
+        note=TRUST + "; BaseExceptions out of scope; format-level prepare_dump functions only by frame (no file event) here, their rejection logic is covered by C14/C01 and by the bounded driver",
+        technique="contract-based deductive verification: exception-flow / ghost event traces by AST symbolic execution with havoc'ed callees (z3 for the symbolic exception classes) + bounded fault injection on the real API",
+    ),
     "C11": dict(
         category="other",
         text="Inductive proof over all histories: a representation invariant on IOData's stored fields is shown to be established by the constructor and preserved by each of the 10 assignments and by reads, from an arbitrary state satisfying it (no bound on history length); the statement's clauses (charge = core charges - electrons, read-back, TypeError + unchanged observables on rejected assignments, orbitals take precedence, idempotent reads) are postconditions proved through the real getters/setters/validators with an attrs model. Category is `other` only because one obligation is refuted by an open known finding (stale lazy default of atcorenums), so discharged != obligations.",
